@@ -113,3 +113,11 @@ Proof.
     exists (d :: lds). split; [simpl; congruence|]. change (d :: lds) with ([d] ++ lds). rewrite g_total_app.
     rewrite <- HS. unfold g_total. simpl. lra.
 Qed.
+
+(* chunked evaluation returns one value per input row, in order, whatever the chunking (incl. a last partial chunk) *)
+Lemma batched_eval_rows : forall (X T : Type) (f : X -> T) (chunks : list (list X)),
+  batched_eval f chunks = map f (concat chunks).
+Proof. intros. unfold batched_eval. symmetry. apply concat_map. Qed.
+Lemma batched_eval_length : forall (X T : Type) (f : X -> T) (chunks : list (list X)),
+  length (batched_eval f chunks) = length (concat chunks).
+Proof. intros. rewrite batched_eval_rows. apply map_length. Qed.
